@@ -14,6 +14,7 @@
 #include <stdio.h>
 #include <stdlib.h>
 #include <string.h>
+#include <sys/stat.h>
 #include <sys/wait.h>
 #include <time.h>
 #include <unistd.h>
@@ -160,7 +161,9 @@ int abtmc_main(int argc, char **argv, const abtmc_driver *d)
             continue;
         for (int r = 0; r < reps; r++) {
             char path[64];
-            snprintf(path, sizeof(path), "/tmp/abtmc_free.%d", (int)getpid());
+            mkdir("/verif/build", 0755);
+            mkdir("/verif/build/tmp", 0755);
+            snprintf(path, sizeof(path), "/verif/build/tmp/abtmc_free.%d", (int)getpid());
             int fd = open(path, O_RDWR | O_CREAT | O_TRUNC, 0600);
             unlink(path);
             pid_t p = fork();
